@@ -11,7 +11,9 @@ Inductive gev :=
 | GPre (sid : N) (p : prec)        (* pre.done, with this pass' inferred oracle answers and the four observed trees *)
 | GHook (sid k : N)                (* every other hook of a seed *)
 | GFetch (sid url : N)             (* arch.fetch of a node of seed sid *)
-| GDel (sid : N).                  (* lq.deleted *)
+| GDel (sid : N)                   (* lq.deleted *)
+| GCapt (sid missing total : N).   (* at fin.finished (sync WARC mode): of the [total] responses the WARC writer acknowledged
+                                      for this seed, [missing] are not readable from the WARC files on disk *)
 
 Record ecase := EC {
   e_w : N;                  (* WorkersCount *)
@@ -92,6 +94,7 @@ Definition astep (a : acc) (e : gev) : option acc :=
   | GHook _ _ => Some a       (* pre.in is 1; 2 is carried by GPre; 10 (notified) has no counterpart *)
   | GFetch _ _ => Some a
   | GDel _ => Some a
+  | GCapt _ _ _ => Some a
   end.
 
 Fixpoint arun (a : acc) (es : list gev) : option acc :=
@@ -254,6 +257,10 @@ Definition mon_bounds (c : ecase) : bool :=
                                           [p_t_pre p; p_t_arch p; p_t_post p; p_t_fin p]
                     | _ => true end) (e_events c).
 
+(* m10 (C02): when a seed is reported finished every accepted response fetched for it is in the WARC files *)
+Definition mon_captured_at_finish (c : ecase) : bool :=
+  forallb (fun e => match e with GCapt _ m _ => m =? 0 | _ => true end) (e_events c).
+
 Definition mons (l : list ecase) :=
   mon_idx [mon_once; mon_done; mon_no_late_fetch; mon_all_fetched; mon_bounded; mon_idle; mon_wf; mon_one_place;
-           mon_attempts; mon_bounds] l.
+           mon_attempts; mon_bounds; mon_captured_at_finish] l.
